@@ -1,0 +1,74 @@
+//go:build verif
+
+package sysex
+
+// Contracts for the deductive verifier in /verif (govc). The //@ lines are read by the verifier; functions
+// named verif* are proof harnesses, compiled only with -tags verif.
+
+// sum of address and body of a message value (what the checksum covers)
+//@ macro bodySum(s) = int32(uint32(s.Address[0])) + int32(uint32(s.Address[1])) + int32(uint32(s.Address[2])) + (s.InfoRequest ? int32(uint32(s.NumReqBytes[0])) + int32(uint32(s.NumReqBytes[1])) + int32(uint32(s.NumReqBytes[2])) : psum(raw(s.SendingData), off(s.SendingData), off(s.SendingData) + len(s.SendingData)))
+
+//@ macro b32(x) = int32(uint32(x))
+//@ macro addrSum(s, i) = (i == 0 ? 0 : i == 1 ? b32(s.Address[0]) : i == 2 ? b32(s.Address[0]) + b32(s.Address[1]) : b32(s.Address[0]) + b32(s.Address[1]) + b32(s.Address[2]))
+//@ macro reqSum(s, i) = (i <= 3 ? 0 : i == 4 ? b32(s.NumReqBytes[0]) : i == 5 ? b32(s.NumReqBytes[0]) + b32(s.NumReqBytes[1]) : b32(s.NumReqBytes[0]) + b32(s.NumReqBytes[1]) + b32(s.NumReqBytes[2]))
+
+// sumOK: the 32 bit sum of address and body is not negative (it cannot be for payloads below 2^23 bytes)
+//@ macro sumOK(s) = bodySum(s) >= 0
+
+//@ func (Manufacturer).Checksum
+//@ ensures [P:C18] sumOK(s) ==> sum == cksum(bodySum(s))
+//@ ensures [P:C18] sumOK(s) ==> sum < 128
+//@ ensures [P:C18] sumOK(s) ==> (bodySum(s) + int32(uint32(sum))) % 128 == 0
+//@ loop 0 invariant -1 <= rangeindex && rangeindex < len(bt) && len(bt) == 3 + (s.InfoRequest ? 3 : len(s.SendingData))
+//@ loop 0 invariant rangeindex + 1 <= 3 ==> su == addrSum(s, rangeindex + 1)
+//@ loop 0 invariant (rangeindex + 1 > 3 && s.InfoRequest) ==> su == addrSum(s, 3) + reqSum(s, rangeindex + 1)
+//@ loop 0 invariant (rangeindex + 1 >= 3 && !s.InfoRequest) ==> su == addrSum(s, 3) + psum(raw(s.SendingData), off(s.SendingData), off(s.SendingData) + rangeindex + 1 - 3)
+//@ loop 0 invariant bt[0] == s.Address[0] && bt[1] == s.Address[1] && bt[2] == s.Address[2]
+//@ loop 0 invariant s.InfoRequest ==> (bt[3] == s.NumReqBytes[0] && bt[4] == s.NumReqBytes[1] && bt[5] == s.NumReqBytes[2])
+//@ loop 0 invariant !s.InfoRequest ==> forall i int :: 0 <= i && i < len(s.SendingData) ==> bt[3 + i] == s.SendingData[i]
+//@ loop 0 decreases len(bt) - rangeindex
+
+//@ func (Manufacturer).SysEx
+//@ requires sumOK(s)
+//@ ensures [P:C18] fresh(result) && len(result) == 10 + (s.InfoRequest ? 3 : len(s.SendingData))
+//@ ensures [P:C18] result[0] == 0xF0 && result[1] == uint8(s.ManufacturerID) && result[2] == s.DeviceID && result[3] == s.ModelID && result[4] == (s.InfoRequest ? 0x11 : 0x12)
+//@ ensures [P:C18] result[5] == s.Address[0] && result[6] == s.Address[1] && result[7] == s.Address[2]
+//@ ensures [P:C18] s.InfoRequest ==> (result[8] == s.NumReqBytes[0] && result[9] == s.NumReqBytes[1] && result[10] == s.NumReqBytes[2])
+//@ ensures [P:C18] !s.InfoRequest ==> forall i int :: 0 <= i && i < len(s.SendingData) ==> result[8 + i] == s.SendingData[i]
+//@ ensures [P:C18] result[len(result) - 2] == cksum(bodySum(s)) && result[len(result) - 1] == 0xF7
+
+// Parse: the parsed value carries the fields of the message; it is accepted only if the embedded checksum is
+// the checksum of address and body (so address + body + checksum is 0 modulo 128), and every message built
+// by SysEx is accepted.
+//@ macro wfRoland(bt) = len(bt) >= 11 && bt[0] == 0xF0 && (bt[4] == 0x11 || bt[4] == 0x12) && (bt[4] == 0x11 ==> len(bt) >= 13) && bt[len(bt)-1] == 0xF7
+
+// acceptance of data-set messages: a well-formed message whose checksum byte is the checksum of address and
+// payload is accepted (rawSumOK: no 32 bit wrap of the running sum)
+//@ macro rawSum(bt, j) = b32(bt[5]) + b32(bt[6]) + b32(bt[7]) + psum(raw(bt), off(bt) + 8, off(bt) + 8 + j)
+//@ macro rawSumOK(bt) = rawSum(bt, len(bt) - 10) >= 0
+
+//@ func Parse
+//@ ensures [P:C18] result1 == nil ==> (fresh(result0) && wfRoland(bt))
+//@ ensures [P:C18] result1 == nil ==> (result0.ManufacturerID == ManufacturerID(bt[1]) && result0.DeviceID == bt[2] && result0.ModelID == bt[3] && result0.InfoRequest == (bt[4] == 0x11) && result0.Address[0] == bt[5] && result0.Address[1] == bt[6] && result0.Address[2] == bt[7])
+//@ ensures [P:C18] result1 == nil && bt[4] == 0x11 ==> (result0.NumReqBytes[0] == bt[8] && result0.NumReqBytes[1] == bt[9] && result0.NumReqBytes[2] == bt[10])
+//@ ensures [P:C18] result1 == nil && bt[4] == 0x12 ==> (len(result0.SendingData) == len(bt) - 10 && forall i int :: 0 <= i && i < len(bt) - 10 ==> result0.SendingData[i] == bt[8 + i])
+//@ ensures [P:C18] result1 == nil && sumOK(*result0) ==> bt[len(bt)-2] == cksum(bodySum(*result0))
+//@ ensures [P:C18] (wfRoland(bt) && bt[4] == 0x11 && len(bt) == 13 && bt[11] == cksum(b32(bt[5]) + b32(bt[6]) + b32(bt[7]) + b32(bt[8]) + b32(bt[9]) + b32(bt[10]))) ==> result1 == nil
+//@ ensures [P:C18] (wfRoland(bt) && bt[4] == 0x12 && rawSumOK(bt) && bt[len(bt)-2] == cksum(rawSum(bt, len(bt) - 10))) ==> result1 == nil
+
+// ---------------------------------------------------------------- proof harnesses (C18)
+
+// The data-set round trip is the composition of SysEx's layout postcondition with Parse's acceptance and field
+// clauses; the two are linked by the proved Layer C lemma psumShift (equal contents have equal sums). That
+// composition is not mechanised as a harness: the solvers do not instantiate the lemma under the quantified premise.
+
+// verifRoundTripRequest: the same for data-request values
+func verifRoundTripRequest(m Manufacturer) (r *Manufacturer, err error) {
+	return Parse(m.SysEx())
+}
+
+//@ func verifRoundTripRequest
+//@ requires m.InfoRequest && sumOK(m)
+//@ ensures [P:C18] err == nil
+//@ ensures [P:C18] r.ManufacturerID == m.ManufacturerID && r.DeviceID == m.DeviceID && r.ModelID == m.ModelID && r.InfoRequest && r.Address[0] == m.Address[0] && r.Address[1] == m.Address[1] && r.Address[2] == m.Address[2]
+//@ ensures [P:C18] r.NumReqBytes[0] == m.NumReqBytes[0] && r.NumReqBytes[1] == m.NumReqBytes[1] && r.NumReqBytes[2] == m.NumReqBytes[2]
